@@ -205,6 +205,7 @@ def run_property(prop, tier="quick", seed=0):
         "violations": [v.to_json() for v in new],
         "known_findings_matched": [v.to_json() for v in suppressed],
         "rules": {r: sorted(s) for r, s in sorted(rules.items())},
+        "functions_analysed": sorted("%s::%s" % f if f[0] != "divan" else f[1] for f in ctx.funcs),
     }
     with open(report_path, "w") as fh:
         json.dump(report, fh, indent=1)
